@@ -38,7 +38,9 @@ fn write_out(m: &HashMap<String, String>, props: &str, lines: &[String]) {
 
 fn main() {
     // panics of the code under test are data: keep stderr quiet
-    std::panic::set_hook(Box::new(|_| {}));
+    if std::env::var("VH_PANIC").is_err() {
+        std::panic::set_hook(Box::new(|_| {}));
+    }
     hook::install();
     let (cmd, m) = args();
     let seed = geti(&m, "seed", 1) as u64;
@@ -151,6 +153,11 @@ fn main() {
         "treesearch" => {
             let mut out = seq::Out::new();
             sat::treesearch(&mut out, seed, geti(&m, "runs", 500));
+            write_out(&m, &props, &out.lines);
+        }
+        "meta" => {
+            let mut out = seq::Out::new();
+            sat::meta_runs(&mut out, seed, geti(&m, "runs", 600));
             write_out(&m, &props, &out.lines);
         }
         "lower" => {
